@@ -108,6 +108,9 @@ var confusedValues = []string{`"#/allOf/9223372036854775808"`, `"#/allOf/1844674
 	`{"":[]}`, `[true,false]`, `{"$ref":"#"}`, `[{"$ref":"#"}]`, `{"a":1,"a":2}`, `"\u0000"`, `2147483648`, `-2147483649`, `1.0`, `[0]`, `{"type":null}`}
 
 func (p c10) Run(c *fw.Case) {
+	if c.Idx%6 == 5 {
+		failedCalls(c) // call history: failed calls before the case must leave nothing behind
+	}
 	switch k := c.Idx % 10; {
 	case k < 4:
 		p.bytesCase(c)
